@@ -5,9 +5,12 @@
      - a staged record carries the composite key (turn, stage order of its stream, slice, arrival);
        documented stream order t1 < t2 < t3_plan < t3_dialogue < t4 < apply < health < turn <
        scheduler (< t3_reflection; unknown streams last) — here streams ARE their ordinals;
-     - staging is bounded: when the buffered size plus the new record would exceed the limit the
-       stager signals back-pressure and the driver deterministically drains (sorted), flushes the
-       drained records to their files, and retries the record exactly once;
+     - staging is bounded: when the buffered size plus the new record would exceed the limit *and
+       draining can help* (the buffer is not empty) the stager signals back-pressure and the driver
+       deterministically drains (sorted), flushes the drained records to their files, and retries the
+       record exactly once; a record larger than the whole limit is admitted into the empty buffer,
+       so the retry always succeeds (AdmitOversize = TRUE; FALSE is the control model of a stager that
+       refuses such a record also when empty — there the retry raises again);
      - requirement: records are flushed in (turn, stage order, slice, arrival) order whatever the limit.
    This module is the *faithful model of that mechanism*; the requirement is stated as invariants over
    the outcome under every limit, so TLC shows for which arrival sequences the mechanism meets it.
@@ -15,7 +18,7 @@
    units); res[L] = outcome under limit L.  Init picks the case, Eval computes all outcomes. *)
 EXTENDS Integers, Sequences, FiniteSets, TLC, Json
 
-CONSTANTS MinLen, MaxLen, Turns, Ords, Slices, Sizes, Limits
+CONSTANTS MinLen, MaxLen, Turns, Ords, Slices, Sizes, Limits, AdmitOversize
 
 VARIABLES arr, res
 vars == <<arr, res>>
@@ -38,12 +41,12 @@ Drain(a, st) == LET b == SortSet(a, SeqToSet(st.buf)) IN
                            !.batches = IF b = <<>> THEN st.batches ELSE Append(st.batches, b)]
 StageF(a, st, i, L) ==
     IF st.status # "ok" THEN st
-    ELSE IF st.bytes + a[i].z <= L
+    ELSE IF st.bytes + a[i].z <= L \/ (AdmitOversize /\ st.buf = <<>>)
     THEN [st EXCEPT !.buf = Append(st.buf, i), !.bytes = st.bytes + a[i].z]
     ELSE LET d == Drain(a, st) IN                      \* back-pressure: drain sorted, flush, retry once
-         IF a[i].z <= L
+         IF a[i].z <= L \/ AdmitOversize
          THEN [d EXCEPT !.buf = <<i>>, !.bytes = a[i].z, !.bp = d.bp + 1]
-         ELSE [d EXCEPT !.status = "raised", !.bp = d.bp + 1, !.at = i]  \* the retry signals back-pressure again
+         ELSE [d EXCEPT !.status = "raised", !.bp = d.bp + 1, !.at = i]  \* control model only: the retry raises again
 RECURSIVE RunFrom(_, _, _, _)
 RunFrom(a, st, i, L) == IF i > Len(a) THEN (IF st.status = "ok" THEN Drain(a, st) ELSE st)
                         ELSE RunFrom(a, StageF(a, st, i, L), i + 1, L)
@@ -89,9 +92,10 @@ NoRaise == \A L \in Limits : res[L].status = "ok"
 FlushOrderIndependentOfLimit == Evaluated => (Indep /\ FlushSorted)
 \* the same, claimed only for the arrival orders the driver produces (monotone within a file)
 FlushOrderIndependentOfLimit_Monotone == (Evaluated /\ Monotone(arr)) => (Indep /\ FlushSorted)
-\* a record that fits no buffer: the retry fails again (hypothesis (b)); otherwise the run completes
-RetrySucceeds == Evaluated => \A L \in Limits : (res[L].status = "ok" <=> ~Oversize(arr, L))
+\* the retry after a drain always succeeds: every run completes, whatever the sizes and the limit
 RetryAlwaysSucceeds == Evaluated => NoRaise
+\* exact characterisation (also of the control model: there a record that fits no buffer aborts the run)
+RetrySucceeds == Evaluated => \A L \in Limits : (res[L].status = "ok" <=> (AdmitOversize \/ ~Oversize(arr, L)))
 
 View == <<arr, res>>
 \* compact emission (integers only): record = ((t*100+o)*10+s)*10+z; f = arrivals monotone within every file;
